@@ -47,6 +47,20 @@ CLAIMS = {
              'leave state and log untouched; measure sets the flag of q only; reset and allocateQubit clear it; other flags are kept (ghost index).',
         note=TB + 'The evaluator-side flags, their pairing with the simulator flags, and the access paths (variable, element, parameter, field) are not under contract yet.',
         ref='DESIGN.md §4 C06'),
+    'C13': dict(
+        text='Proof for the lexer (every member function): every loop terminates (decreases clause on bytes left), every source access is in bounds, every cursor move is '
+             'forward, and tokenize ends either with exactly one Lexical diagnostic or with a token vector ending in Eof after consuming the whole source - for any byte string up to 1 MiB. '
+             'No raw C++ exception (string_view::substr out_of_range) can surface.',
+        note=TB + 'Claim limited to the lexer. Parser, module loader and analyser termination/totality are NOT under contract (recursive descent over unique_ptr trees is outside the lowering); '
+             'the keyword-table lookup is a trusted library model.',
+        ref='DESIGN.md §4 C13'),
+    'C15': dict(
+        text='Proof that the token scanToken returns is located at the TRUE position (ghost line/column maintained only by the two byte-consuming primitives, by the definition of a 1-based position) '
+             'of its first character, that its text is exactly the bytes consumed for it (slice identity for scanned tokens, byte-for-byte with a ghost index for literal-valued ones), that the '
+             'lexer position equals the true position after every function, that skipWhitespace stops only at the end or at a non-trivia byte, skipComment consumes no newline, and tokenize consumes the whole source and puts Eof at the true end.',
+        note=TB + 'Any source up to 1 MiB (object-size bound). That the bytes skipWhitespace consumes are only whitespace or comment bodies is proved as "stops at first non-trivia"/"no newline in a comment", '
+             'not as a full classification of every skipped byte.',
+        ref='DESIGN.md §4 C15'),
 }
 
 NA = {
